@@ -1,13 +1,18 @@
 PROPERTY = "C17"
 LEVEL = "proof"
 LEAN_MODULES = ["CifModel.Props.C17"]
-REQUIRED = ["CifModel.C17_dup_ustrings_balanced", "CifModel.C17_clone_balanced", "CifModel.C17_insert_balanced"]
+REQUIRED = ["CifModel.C17_dup_ustrings_balanced", "CifModel.C17_clone_balanced", "CifModel.C17_insert_balanced",
+            "CifModel.C17_fault_reached_iff", "CifModel.C17_set_element_balanced", "CifModel.C17_get_names_balanced",
+            "CifModel.C17_cex_get_names_leak", "CifModel.C17_clone_shape", "CifModel.C17_balanced_nodup",
+            "CifModel.C17_copy_char_balanced", "CifModel.C17_packet_create_balanced",
+            "CifModel.C17_cex_packet_create_undefined", "CifModel.C17_deserialize_balanced"]
 GEN = []
 FAMILIES = ["ladder", "oom"]
 TRUSTED_BASE = [
     "Lean 4.33.0 kernel; axioms propext / Quot.sound / Classical.choice only",
     "Model/Ladder.lean: hand transcription of the allocation/clean-up control flow of dup_ustrings, cif_value_clone (scalar, "
-    "char, number, nested list) and cif_value_insert_element_at; tied to the real code by family `ladder` (event pattern "
+    "char, number, nested list), cif_value_insert_element_at, cif_value_set_element_at, cif_loop_get_names, cif_value_copy_char, cif_packet_create "
+    "(ASCII names, below uthash's first bucket expansion) and cif_value_deserialize of list blobs; tied to the real code by family `ladder` (event pattern "
     "recorded by the allocation wrappers of harness/alloc.h for every fault position of every generated shape)",
     "harness/alloc.h (--wrap of malloc/calloc/realloc/strdup/free in the executor, SQLite allocator via "
     "SQLITE_CONFIG_MALLOC, ICU allocator via u_setMemoryFunctions), harness/x_oom.c scenarios, tools/gen/oom.py oracle",
@@ -20,7 +25,8 @@ ASSUMPTIONS = [
     "operations) is observed by exhaustive fault enumeration on fixed representative scenarios, not proved",
 ]
 PARTIAL = [
-    "theorems cover the clean-up ladders of dup_ustrings / cif_value_clone (without tables) / cif_value_insert_element_at for "
+    "theorems cover the clean-up ladders of dup_ustrings / cif_value_clone (without tables) / cif_value_insert_element_at / "
+    "cif_value_set_element_at / cif_loop_get_names (normalize = 0) for "
     "every size, nesting and fault position; every other allocation site is covered by the fault-enumeration run only",
     "77 classes of genuine allocation-failure defects of the pinned library are recorded as open findings "
     "(known_findings.d/C17.json), most of them rooted in uthash's out-of-memory handling and in statements/transactions left "
@@ -36,4 +42,3 @@ LEVEL_NOTE = ("The theorem is about the ladder model; memory safety of the C its
               "Known genuine defects are listed individually (keyed by operation / allocator class / failing allocation's "
               "function / consequence) so that any new failure is still reported.")
 TECHNIQUE = "Lean 4 induction over value shapes and fault positions (clean-up ladder model) + exhaustive single-fault injection"
-NOT_CLAIMED = "Lean theorems for the clean-up ladder model are being written (branch gI); the fault-enumeration run exists"
